@@ -45,6 +45,9 @@
 (*    <<"FAIL", id, clause, detail>>      for every violated clause        *)
 (*    <<"U", id, i>>                      an enabled step in an            *)
 (*                                        unspecified zone (not judged)    *)
+(*    <<"SOLE", id, channel>>             evidence only: the record has a  *)
+(*                                        dependent pair that is dependent *)
+(*                                        through this channel alone       *)
 (***************************************************************************)
 EXTENDS UPSeqSem, Json, IOUtils
 
@@ -145,6 +148,58 @@ DepPairs(rec) ==
           /\ p[1] < p[2]
           /\ \/ W[p[1]] \cap (Rd[p[2]] \cup W[p[2]]) # {}
              \/ W[p[2]] \cap (Rd[p[1]] \cup W[p[1]]) # {}}
+\* ------------------------------------------------------------------------
+\* evidence: the CHANNEL through which a dependent pair is dependent.
+\* Reads(Rx, ga) is split by the syntactic position of the read:
+\*    "pre"           preconditions
+\*    "cond"/"value"  condition / value of an effect, fluent applications that do NOT mention a
+\*                    variable bound by the effect's forall
+\*    "forall-cond"/"forall-value"
+\*                    fluent applications in the condition / value of a forall effect that mention
+\*                    the quantified variable: these ground reads exist only after the expansion
+\*                    of the forall effect
+\*    "incdec"        the target of an increase/decrease
+\* and "write" stands for write-write.  A pair of DepPairs(rec) is a SOLE WITNESS of channel ch
+\* when ch is the only channel through which it is dependent and the other dependent pairs do
+\* not order it transitively: an implementation that loses exactly that channel is then caught
+\* by OrderKept on this record.  Printed as <<"SOLE", id, ch>> (evidence / vacuity only; the
+\* verdicts do not use it).  <<"CHERR", id, i>> = the split does not add up to Reads (a defect
+\* of this specification).
+\* ------------------------------------------------------------------------
+ReadChannels == {"pre", "cond", "value", "forall-cond", "forall-value", "incdec"}
+MentionsVar(e, V) == \E i \in DOMAIN e.args : e.args[i].op = "var" /\ e.args[i].name \in V
+\* ground fluents of the fluent applications of e for which MentionsVar(_, V) = want
+RECURSIVE GFS(_,_,_,_,_)
+GFS(Rx, e, env, V, want) ==
+   IF e.op \in {"exists", "forall"}
+   THEN UNION {GFS(Rx, e.args[1], en, V, want) : en \in Envs(Rx.P, e.vars, env)}
+   ELSE (IF e.op = "fluent" /\ MentionsVar(e, V) = want THEN {GKey(Rx, e.name, e.args, env)} ELSE {})
+        \cup UNION {GFS(Rx, e.args[i], env, V, want) : i \in DOMAIN e.args}
+QVars(ef) == {ef.forall[i].name : i \in DOMAIN ef.forall}
+ReadsCh(Rx, ga, ch) ==
+   LET a == Act(Rx.P, ga.a)
+       env == ParEnv(a, ga)
+       X == XEffects(Rx, a, env)
+   IN IF ch = "pre" THEN UNION {GF(Rx, a.pre[i], env) : i \in DOMAIN a.pre}
+      ELSE IF ch = "cond" THEN UNION {GFS(Rx, x[1].c, x[2], QVars(x[1]), FALSE) : x \in X}
+      ELSE IF ch = "value" THEN UNION {GFS(Rx, x[1].v, x[2], QVars(x[1]), FALSE) : x \in X}
+      ELSE IF ch = "forall-cond" THEN UNION {GFS(Rx, x[1].c, x[2], QVars(x[1]), TRUE) : x \in X}
+      ELSE IF ch = "forall-value" THEN UNION {GFS(Rx, x[1].v, x[2], QVars(x[1]), TRUE) : x \in X}
+      ELSE UNION {IF x[1].kind = "assign" THEN {} ELSE {GKey(Rx, x[1].f.name, x[1].f.args, x[2])} : x \in X}
+SoleWitnesses(rec) ==
+   LET n == N(rec)
+       Rx == RR(rec)
+       W == TLCEval([i \in 1..n |-> Writes(Rx, rec.plan[i])])
+       RC == TLCEval([i \in 1..n |-> [ch \in ReadChannels |-> ReadsCh(Rx, rec.plan[i], ch)]])
+       dp == DepPairs(rec)
+       ChOf(p) == {ch \in ReadChannels : \/ W[p[1]] \cap RC[p[2]][ch] # {}
+                                         \/ W[p[2]] \cap RC[p[1]][ch] # {}}
+                  \cup (IF W[p[1]] \cap W[p[2]] # {} THEN {"write"} ELSE {})
+       sole == {p \in dp : Cardinality(ChOf(p)) = 1 /\ p \notin TC(dp \ {p}, n)}
+   IN /\ \A i \in 1..n : \/ UNION {RC[i][ch] : ch \in ReadChannels} = Reads(Rx, rec.plan[i])
+                         \/ PrintT(<<"CHERR", rec.id, i>>)
+      /\ \A ch \in UNION {ChOf(p) : p \in sole} : PrintT(<<"SOLE", rec.id, ch>>)
+
 Classify(rec, m) ==
    LET v == SeqVerdict(RR(rec), rec.plan)
        none == <<>>
@@ -205,7 +260,7 @@ RecordClauses(rec) ==
    LET n == N(rec) E == EdgeSet(rec) IN
    IF cls.c = "judged"
    THEN /\ PrintT(<<"REC", rec.id, cls.c, Chains(E, n, {}), Cardinality(DownSets(E, n))>>)
-        /\ (Nested(rec) \/ OrderKept(rec))
+        /\ (Nested(rec) \/ (OrderKept(rec) /\ SoleWitnesses(rec)))
         /\ LinsOK(rec)
    ELSE /\ PrintT(<<"REC", rec.id, cls.c, 0, 0>>)
         /\ (cls.c = "raises" => PrintT(<<"FAIL", rec.id, "raises-" \o rec.exc, 0>>))
